@@ -19,7 +19,7 @@ PROPERTY = {
 }
 
 KEYS = ['lst', 'batch-sizes', 'a.b']
-NOPS = 14
+NOPS = 15
 
 
 class Err(Exception):
@@ -44,7 +44,7 @@ def op_text(op, K, L):
         6: ('sc', '!append ' + lt), 7: ('sc', '!extend ' + lt),
         8: ('d', '!extend ' + lt),
         9: ('q', "!prev '%s'" % K if K == 'lst' else "!prev zz"), 10: ('q', "!prev 'm.inner'"),
-        11: ('m', '{moved: !prev d}'), 12: ('q2', '!prev zz'), 13: ('q3', "!prev 'm.inner[1]'"),
+        11: ('m', '{moved: !prev d}'), 12: ('q2', '!prev zz'), 13: ('q3', "!prev 'm.inner[1]'"), 14: ('q4', "!prev 'm.inner[0]'"),
     }[op]
 
 
@@ -107,6 +107,11 @@ def apply(model, op, K, Lv):
         if not isinstance(inner, list) or len(inner) < 2:
             raise Err()
         m['q3'] = inner.pop(1)
+    elif op == 14:
+        inner = m.get('m', {}).get('inner') if isinstance(m.get('m'), dict) else None
+        if not isinstance(inner, list) or len(inner) < 1:
+            raise Err()
+        m['q4'] = inner.pop(0)            # a NON-last element: what is moved must be the element itself, not the list's last one
     return m
 
 
@@ -151,7 +156,7 @@ def c16_ops(split, op1, op2, n, same_stage, two):
         except Err:
             commute = False
         touched = {0: ['K'], 1: ['K'], 2: ['m.inner'], 3: ['m.inner'], 4: ['zz'], 5: ['zz'], 6: ['sc'], 7: ['sc'], 8: ['d'], 9: ['K', 'q'],
-                   10: ['m.inner', 'q'], 11: ['d', 'm.moved'], 12: ['zz', 'q2'], 13: ['m.inner', 'q3']}
+                   10: ['m.inner', 'q'], 11: ['d', 'm.moved'], 12: ['zz', 'q2'], 13: ['m.inner', 'q3'], 14: ['m.inner', 'q4']}
         if set(touched[ops[0]]) & set(touched[ops[1]]):
             commute = False      # both operators of one document address the same previous subtree: order not stated
         if not commute:
@@ -183,7 +188,7 @@ def _splits(tier):
     for key in range(len(KEYS)):
         out.append({'key': key, '_pre': 'not two'})
         for o in range(NOPS):
-            if tier == 'quick' and (key != 0 and o not in (0, 1, 9, 13)):
+            if tier == 'quick' and (key != 0 and o not in (0, 1, 9, 14)):
                 continue
             out.append({'key': key, '_pre': 'two and op1 == %d' % o})
     return out
